@@ -260,5 +260,27 @@ theorem operators_use_component_order_spherical (n : ℕ) (r : Int → K) (dr : 
   have h1 := hb (i+1); have h2 := hb (i-1); have h3 := hb i
   cases cons <;> cases m <;> simp_all [sphDivergence, d1, shift]
 
+/-- **C19** spherical grids, the remaining tensor kernels (conservative tensor divergence, double divergence in
+both forms): they read exactly the components named `(r, r)` and `(φ, φ)` - with `ir, iφ` the indices
+`get_axis_index` returns for the names - and the conservative tensor divergence stores its result as component
+`ir` (`0` as the components `iθ`, `iφ`) -/
+theorem operators_use_component_order_spherical_tensor (n : ℕ) (r : Int → K) (dr : K) (a : Arr K) (cons : Bool)
+    (i : Int) :
+    ∃ ir iθ iφ : ℕ, getAxisIndex .spherical n .r = some ir ∧ getAxisIndex .spherical n .θ = some iθ ∧
+      getAxisIndex .spherical n .φ = some iφ ∧
+      (∀ b : Arr K, (∀ k, b [(ir : Int), (ir : Int), k] = a [(ir : Int), (ir : Int), k]) →
+        (∀ k, b [(iφ : Int), (iφ : Int), k] = a [(iφ : Int), (iφ : Int), k]) →
+        sphTensorDivergence true r dr b ir i = sphTensorDivergence true r dr a ir i ∧
+        sphTensorDoubleDivergence cons r dr b i = sphTensorDoubleDivergence cons r dr a i) ∧
+      sphTensorDivergence true r dr a iθ i = ((0:Nat):K) ∧
+      sphTensorDivergence true r dr a iφ i = ((0:Nat):K) := by
+  refine ⟨0, 1, 2, rfl, rfl, rfl, ?_, rfl, rfl⟩
+  intro b hb hp
+  have h1 := hb (i+1); have h2 := hb (i-1); have h3 := hb i
+  have p1 := hp (i+1); have p2 := hp (i-1); have p3 := hp i
+  constructor
+  · simp_all [sphTensorDivergence]
+  · cases cons <;> simp_all [sphTensorDoubleDivergence]
+
 end
 end PdeVerif.Coords
